@@ -54,7 +54,8 @@ var (
 	funcDeclRe         = regexp.MustCompile(`\b(?:func|macro)[ \t]+([A-Za-z_][A-Za-z0-9_]*)[ \t]*[(%]`)
 	funcDeclUseRe      = regexp.MustCompile(`\b(?:func|macro)[ \t]+[A-Za-z_][A-Za-z0-9_]*`)
 	anyIdentRe         = regexp.MustCompile(`[A-Za-z_][A-Za-z0-9_]*`)
-	defaultCalleeRe    = regexp.MustCompile(`(?:\.[ \t]*[A-Za-z_][A-Za-z0-9_]*|[\]}]|[A-Za-z0-9_][ \t]*\([^()]*\))[ \t]*\([^()]*\)[ \t]*default\b`)
+	defaultCalleeRe    = regexp.MustCompile(`\([^()]*\)[ \t]*default\b`)
+	plainCalleeRe      = regexp.MustCompile(`^(?:[A-Za-z_][A-Za-z0-9_]*|\([ \t]*[A-Za-z_][A-Za-z0-9_]*[ \t]*\)|render[ \t].*)?$`)
 	defaultTailRe      = regexp.MustCompile(`[ \t]*\bdefault\b[^}%]*`)
 	elseRe             = regexp.MustCompile(`\{%[ \t\n]*else[ \t\n]*%\}|\belse\b`)
 )
@@ -247,9 +248,19 @@ var findingClasses = []findingClass{
 		return out, true
 	}},
 	{id: "default-non-identifier-call-panics", neutral: func(src []byte) ([]byte, bool) {
-		// `f(…) default e` where the callee f is not an identifier: a selector, an index, a literal, a call (not a
-		// parenthesised identifier, which the parser unwraps); neutralised by dropping `default e`
-		if !defaultCalleeRe.Match(src) {
+		// `f(…) default e` where the callee f is not an identifier: anything but an identifier or a parenthesised identifier
+		// (which the parser unwraps); neutralised by dropping `default e`
+		predicted := false
+		for _, loc := range defaultCalleeRe.FindAllIndex(src, -1) {
+			start := loc[0]
+			for start > 0 && !strings.ContainsRune("{=,;%\n", rune(src[start-1])) {
+				start--
+			}
+			if callee := strings.TrimSpace(string(src[start:loc[0]])); !plainCalleeRe.MatchString(callee) {
+				predicted = true
+			}
+		}
+		if !predicted {
 			return nil, false
 		}
 		return defaultTailRe.ReplaceAll(src, nil), true
